@@ -339,6 +339,11 @@ def scan_assumptions(text):
         ls = text.rfind('\n', 0, m.start()) + 1
         le = text.find('\n', m.end())
         line = text[ls:le].strip()
+        if 'admit' in line:
+            # name the axiom: nearest preceding `proof fn`
+            pf = list(re.finditer(r'proof fn (\w+)', text[:m.start()]))
+            if pf and pf[-1].group(1) not in line:
+                line = 'axiom %s: %s' % (pf[-1].group(1), line)
         # for attributes, show the next line (the item)
         if line.startswith('#['):
             le2 = text.find('\n', le + 1)
